@@ -121,14 +121,14 @@ Print Assumptions C04_confirm_active.
 
 (* Synchronize, cooperate, request-control, font list. *)
 Theorem C04_finalization :
-  forall p c i, 1001 <= i_uid i <= 65535 -> i_share i < 4294967296 ->
+  forall p c i, 1001 <= i_uid i <= 65535 -> i_io i < 65536 -> i_share i < 4294967296 ->
     Forall2 (fun o d => exists f, o = Ok f /\ strict_parse f = Some d) (emit_finalize p c i) (expected_finalize i).
 Proof. exact emit_finalize_parses. Qed.
 Print Assumptions C04_finalization.
 
 (* One input PDU per event, carrying exactly the submitted values. *)
 Theorem C04_input :
-  forall p c i, 1001 <= i_uid i <= 65535 -> i_share i < 4294967296 -> forall e, sendable e ->
+  forall p c i, 1001 <= i_uid i <= 65535 -> i_io i < 65536 -> i_share i < 4294967296 -> forall e, sendable e ->
     exists f, emit_input p c i e = Ok f /\ strict_parse f = Some (expected_input i e).
 Proof. exact emit_input_parses. Qed.
 Print Assumptions C04_input.
